@@ -1,3 +1,5 @@
+import F3.Proofs.SkelTiePoll
+import F3.Proofs.SkelTieCertX
 import F3.Gen.Core
 import F3.Model.Poll
 import F3.Spec.Poll
@@ -893,4 +895,22 @@ example : runPredictor ⟨100, 1000, 0, 89, 312, false⟩
     ([312, 341, 341, 399, 399, 515, 477, 401, 249, 249, 299, 299, 399, 399, 599, 533, 401, 137],
      ⟨100, 1000, 0, 264, 137, false⟩) := by decide
 
+end F3.Props.C20
+
+namespace F3.Props.C20
+section Skeletons
+
+/-- **The Go functions this property's models mirror still have the statement structure the models were written
+against**: each regenerated skeleton (pre-order list of statement kinds, `tools/go2lean/skel.go`) equals the pinned
+expectation of `F3/Proofs/SkelTie*.lean`. An added early return, cap, loop or dropped branch in one of these functions
+breaks this obligation even when no regenerated *expression* changes. -/
+theorem code_structure_as_modelled :
+    F3.Gen.SkelPoll.skelSubscriberPoll = F3.SkelTie.SkelPoll.skelSubscriberPollExpected ∧
+    F3.Gen.SkelPoll.skelCatchUp = F3.SkelTie.SkelPoll.skelCatchUpExpected ∧
+    F3.Gen.SkelCertX.skelClientRequest = F3.SkelTie.SkelCertX.skelClientRequestExpected ∧
+    F3.Gen.SkelCertX.skelPollerPoll = F3.SkelTie.SkelCertX.skelPollerPollExpected ∧
+    F3.Gen.SkelCertX.skelNewPoller = F3.SkelTie.SkelCertX.skelNewPollerExpected :=
+  ⟨F3.SkelTie.SkelPoll.skelSubscriberPoll_expected, F3.SkelTie.SkelPoll.skelCatchUp_expected, F3.SkelTie.SkelCertX.skelClientRequest_expected, F3.SkelTie.SkelCertX.skelPollerPoll_expected, F3.SkelTie.SkelCertX.skelNewPoller_expected⟩
+
+end Skeletons
 end F3.Props.C20
